@@ -138,4 +138,4 @@ def run(chk):
     # threshold in one round is within the larger threshold of the next, so the data are extended, never replaced)
     # ... and the two samples are put into that order in place, by the same key (C07.R6)
     chk.borrow(c07.r6, {"C07.R6": "C10.R4"})
-    chk.obs = [o for o in chk.obs if not (o.rule == "C10.R4" and o.key in ("selection-order-recorded",))]
+    # (the order recorded when the cards are looked up is the draw order: kept, so that a later round's cards come after)
